@@ -48,10 +48,17 @@ every proper prefix of every seed through its entry point (complete enumeration 
 form incl. long / indefinite / overflowing / lying, raw and structured truncation, delete, duplicate (up to 17000x), splice \
 of a subtree of any other seed, nest up to 20000 levels, INTEGER / BIT STRING edge values, swap of range ends and siblings, \
 raw byte edits, INTEGER -> AS range incl. AS0-AS4294967295 and min > max, BIT STRING -> address range, time / URI / OID \
-strings); the mutated bytes are recomputed from the case. resign: a library-created RFC 6492 / RFC 8181 message whose embedded CRL gets 0-5 entries and 0-3 TLV mutations inside the TBSCertList (length forms, value bytes, edge values, ...) and is signed again with the issuing pool key, decoded and validated under that key (non-trivial = validation succeeded, i.e. ran through the revocation lookup). random: pure random bytes (0..600 octets), optionally behind the \
+strings, segment = primitive string (OCTET / BIT / character / time string, implicitly tagged value) rewritten in BER constructed \
+form with 1-33 segments incl. empty ones, total length changed by -1 / 0 / +1 / +3 / +43 / +300, definite / indefinite / nested / \
+long-form segments, bit-unused = unused-bits octet of a BIT STRING set to 1-7 with those bits cleared (or left set, 0, 8, 255), \
+pad-to = a constructed value (SETs and context-tagged values preferred) padded by a junk attribute, a junk OCTET STRING or empty \
+segments of a string inside it so that its content length becomes exactly 0x7F / 0x80 / 0xFF / 0x100 / 0xFFFF / 0x10000 / 0x10001); \
+the mutated bytes are recomputed from the case. resign: a library-created RFC 6492 / RFC 8181 message whose embedded CRL gets 0-5 entries and 0-3 TLV mutations inside the TBSCertList (length forms, value bytes, edge values, ...) and is signed again with the issuing pool key, decoded and validated under that key (non-trivial = validation succeeded, i.e. ran through the revocation lookup). random: pure random bytes (0..600 octets), optionally behind the \
 first k octets of a seed. Oracle for all: decode returns Ok or Err without panicking; on Ok the accessor walk (every getter, \
-inspect_*, validation against a fixed issuer / key / TAL, Crl::contains + iterator + cache_serials, manifest \
-iter / iter_uris / len, ROA iter / iter_origins, ASPA provider iterator / to_set, resource-block iterators bounded by \
+inspect_*, validation (validate / validate_at / process, reached also when the signature cannot verify) against a fixed \
+issuer / key / TAL, Crl::contains + iterator + cache_serials + CrlStore lookups, manifest \
+iter / iter_uris / len, ROA iter / iter_origins, ASPA provider iterator / to_set, the certificates, revocation lists and signer \
+infos carried by an RTA (through RtaBuilder::from_rta), resource-block iterators bounded by \
 take(4096), set operations against fixed issuer resources, asn_count, Display / Debug, re-encoding and re-decoding) does not \
 panic; when the counting allocator is installed: peak live bytes <= 64*len + 1 MiB and allocation calls <= 64*len + 4096 \
 per decode + walk. non-trivial = the decoder returned Ok (walk ran), or its first stage succeeded (outer SignedData / \
@@ -301,7 +308,7 @@ fn build_seeds() -> Seeds {
     }
 
     // --- Rta
-    for (name, nkeys) in [("built-rta-1", 1usize), ("built-rta-2", 2), ("built-rta-as-only", 1)] {
+    for (name, nkeys) in [("built-rta-1", 1usize), ("built-rta-2", 2), ("built-rta-as-only", 1), ("built-rta-crl", 1)] {
         let digest = DigestAlgorithm::default().digest(name.as_bytes());
         let mut ab = AttestationBuilder::new(DigestAlgorithm::default(), digest.into());
         for i in 0..nkeys {
@@ -333,6 +340,24 @@ fn build_seeds() -> Seeds {
             c.build_v6_resource_blocks(|b| b.push(Prefix::new(0, 0)));
             rb.push_cert(c.into_cert(&signer, &k0).expect("sign ee"));
             rb.sign(&signer, &signer.key(4 + i), tsig()).expect("sign rta");
+        }
+        if name == "built-rta-crl" {
+            // carries a revocation list (walked through RtaBuilder::from_rta)
+            let pk = signer.info(0);
+            let entries: Vec<CrlEntry> =
+                (0..5u64).map(|i| CrlEntry::new(Serial::from(500 + i * 3), Time::utc(2023, 2, 1 + i as u32, 0, 0, 0))).collect();
+            let crl = TbsCertList::new(
+                RpkiSignatureAlgorithm::default(),
+                pk.to_subject_name(),
+                t0(),
+                t1(),
+                entries,
+                pk.key_identifier(),
+                Serial::from(3u64),
+            )
+            .into_crl(&signer, &k0)
+            .expect("sign crl");
+            rb.push_crl(crl);
         }
         let rta = rb.finalize();
         add(walk::RTA, name, rta.to_captured().into_bytes().to_vec(), true, true);
@@ -613,9 +638,17 @@ fn op_strategy() -> BoxedStrategy<MOp> {
         6 => Just(11u8), // make range
         5 => Just(12u8), // strings
         5 => Just(13u8), // AS edge
+        3 => Just(tlv::BIT_UNUSED),
+        5 => Just(tlv::PAD_TO),
     ];
     let small = || prop_oneof![3 => 0u32..64, 1 => any::<u32>()];
-    (kind, any::<u16>(), small(), small()).prop_map(|(kind, sel, a, b)| MOp { kind, sel, a, b }).boxed()
+    // `segment` spends 12 bits per parameter (segment count + first split point; length delta + form)
+    let wide = || prop_oneof![7 => 0u32..4096, 1 => any::<u32>()];
+    prop_oneof![
+        88 => (kind, any::<u16>(), small(), small()).prop_map(|(kind, sel, a, b)| MOp { kind, sel, a, b }),
+        7 => (any::<u16>(), wide(), wide()).prop_map(|(sel, a, b)| MOp { kind: tlv::SEGMENT, sel, a, b }),
+    ]
+    .boxed()
 }
 
 fn mutate_strategy(_: Tier) -> BoxedStrategy<Case> {
@@ -726,6 +759,15 @@ fn run_mutate(c: &Case, obs: &mut Obs) -> CheckResult {
         obs.label(tlv::KIND_NAMES[(m.kind % tlv::N_KINDS) as usize]);
     }
     obs.label_if(c.strict, "strict");
+    // BER-only encodings matter where the decoder runs in BER mode: the
+    // relaxed mode of the switchable entry points and the two protocol
+    // message types (always relaxed)
+    let relaxed = (walk::ENTRIES[entry as usize].1 && !c.strict) || matches!(entry, walk::PROV_CMS | walk::PUB_CMS);
+    if relaxed && seeds().all[idx].tal_head.is_none() {
+        let has = |k: u8| c.ops.iter().any(|m| m.kind % tlv::N_KINDS == k);
+        obs.label_if(has(tlv::SEGMENT), "relaxed+segment");
+        obs.label_if(has(tlv::PAD_TO), "relaxed+pad-to");
+    }
     decide(entry, c.strict, &data, obs).map(|_| ()).map_err(|mut f| {
         f.msg = format!("seed '{}' + {} mutation(s): {}", seeds().all[idx].name, c.ops.len(), f.msg);
         f
@@ -1024,6 +1066,13 @@ pub fn property() -> Property {
 const MUTATE_FLOORS: &[(&str, f64)] = &[
     ("ok", 0.05),
     ("typed", 0.15),
+    // first operator of the case
+    ("segment", 0.03),
+    ("bit-unused", 0.012),
+    ("pad-to", 0.02),
+    // any operator of the case, decoder in BER mode
+    ("relaxed+segment", 0.02),
+    ("relaxed+pad-to", 0.015),
     ("ep:cert", 0.02),
     ("ep:crl", 0.02),
     ("ep:manifest", 0.02),
